@@ -2,7 +2,7 @@ From Coq Require Import Extraction ExtrOcamlBasic ZArith NArith QArith.
 From SF Require Import Base.GeomAST Model.Envelope.
 Extraction Language OCaml.
 Extraction "model.ml"
-  ZO KO key_of_bits key_same kenv_same scaled_int_of_bits int_of_bits sqrt_within_ulp
+  ZO KO key_of_bits key_same kenv_same scaled_int_of_bits int_of_bits sqrt_within_ulp sqrt_within_ulps
   map_geom int_or_zero all_int zfn
   env_of new_envelope expand_xy join env_valid env_is_empty env_is_point env_is_line env_is_rectangle
   contains intersects covers env_min env_max min_max_xys as_box transform_xy as_geometry
